@@ -408,7 +408,7 @@ def _build_egg_info(
 
 def parse_req_with_marker(req_str: str, marker: str) -> pkg_resources.Requirement:
     return utils.parse_requirement(
-        req_str + " and {}".format(marker)
+        req_str.replace(";", "; (", 1) + ") and {}".format(marker)
         if ";" in req_str
         else req_str + "; {}".format(marker)
     )
@@ -454,18 +454,17 @@ def setup(
             if isinstance(extra_req_strs, str):
                 extra_req_strs = [extra_req_strs]
             cur_reqs = utils.parse_requirements(extra_req_strs)
-            if extra.startswith(":"):
-                req_with_marker = [
-                    parse_req_with_marker(str(cur_req), extra[1:])
-                    for cur_req in cur_reqs
-                ]
-            else:
-                req_with_marker = [
-                    parse_req_with_marker(
-                        str(cur_req), 'extra=="{}"'.format(extra.replace('"', '\\"'))
-                    )
-                    for cur_req in cur_reqs
-                ]
+            # Keys are "extra", ":marker" or "extra:marker"; each marker is parenthesised.
+            extra_name, _, env_marker = extra.partition(":")
+            extra_name = extra_name.strip().replace('"', '\\"')
+            markers = ["({})".format(env_marker)] if env_marker.strip() else []
+            if extra_name:
+                markers.append('extra=="{}"'.format(extra_name))
+            marker = " and ".join(markers)
+            req_with_marker = [
+                parse_req_with_marker(str(req), marker) if marker else req
+                for req in cur_reqs
+            ]
             all_reqs.extend(req_with_marker)
         except pkg_resources.RequirementParseError as ex:  # type: ignore[attr-defined]
             print(
